@@ -2,8 +2,8 @@ SPECIFICATION Spec
 CONSTANT MaxKey = 5
 CONSTANT MaxSize = 6
 VIEW View
-INVARIANT EveryEntryOnceInOrder
 INVARIANT PageLen
 INVARIANT FlagsExact
+INVARIANT EveryEntryOnceInOrder
 INVARIANT ErrorsOnlyForBadArgs
 CHECK_DEADLOCK FALSE
